@@ -1,11 +1,12 @@
 /-
-  SrcTieImplC02 — source ties (see SrcTieImpl.lean) for exp and log.
+  SrcTieImplC02 — source ties (see SrcTieImpl.lean) for exp and log of SO2, C1, Tn, SE2, SO3, SE3, Galilei, SE_K(3).
 -/
 import SmoothProps.SrcTieImplC01
 import SmoothProps.SrcTieImplC04
 
 open Scalar Lin EigenSem
 
+set_option linter.unusedSectionVars false
 namespace SrcTieImpl
 variable {α : Type} [Scalar α]
 
@@ -29,5 +30,40 @@ theorem se3_exp (a : Vec α 6) : ImplSrc.SE3.exp a = SE3.exp a := by
   simp only [ImplSrc.SE3.exp, SE3.exp, memoM_eq, memoV_eq, so3_exp, so3_dr_exp, so3_Ad,
     tail4_setSegment, tail3_tw, head3_tv]
   tie_vec
+
+/-! Galilei -/
+theorem galilei_log (g : Vec α 11) : ImplSrc.Galilei.log g = Galilei.log g := by
+  simp only [ImplSrc.Galilei.log, Galilei.log, memoM_eq, memoV_eq, so3_log, so3_calc_S1inv, so3_calc_S2,
+    gal_tail3_set, gal_tail4]
+  tie_vec
+theorem galilei_exp (a : Vec α 10) : ImplSrc.Galilei.exp a = Galilei.exp a := by
+  simp only [ImplSrc.Galilei.exp, Galilei.exp, memoM_eq, memoV_eq, so3_exp, so3_calc_S1, so3_calc_S2, gal_tail3]
+  tie_vec
+
+/-! SE_K(3), every `k` -/
+theorem sek3_log {k : Nat} (g : Vec α (4 + 3 * k)) : ImplSrc.SEK3.log g = SEK3.log k g := by
+  simp only [ImplSrc.SEK3.log, SEK3.log, memoM_eq, memoV_eq, so3_log, so3_dr_expinv, so3_ad, seg_gq]
+  have e : segment 3 (3 * k) (setSegment (uninitV (3 + 3 * k)) (3 * k) (SO3.log (SEK3.gq k g))) = SO3.log (SEK3.gq k g) := by
+    apply Vec.ext'; intro r; exact setSegment_hi _ _ _ r _
+  rw [e]
+  rw [forLoop_mkT _ _ (SO3.log (SEK3.gq k g)) (fun r => setSegment_hi _ _ _ r _)]
+  rfl
+theorem sek3_exp {k : Nat} (a : Vec α (3 + 3 * k)) : ImplSrc.SEK3.exp a = SEK3.exp k a := by
+  simp only [ImplSrc.SEK3.exp, SEK3.exp, memoM_eq, memoV_eq, so3_exp, so3_dr_exp, so3_Ad, seg_tw]
+  have e : segment 4 (3 * k) (setSegment (uninitV (4 + 3 * k)) (3 * k) (SO3.exp (SEK3.tw k a))) = SO3.exp (SEK3.tw k a) := by
+    apply Vec.ext'; intro r; exact setSegment_hi _ _ _ r _
+  rw [e]
+  rw [forLoop_mkG _ _ (SO3.exp (SEK3.tw k a)) (fun r => setSegment_hi _ _ _ r _)]
+  rfl
+
+/-! ### generic layer: `log()`, `exp`, `operator+` (rplus), `operator+=`, `operator-` (rminus) of LieGroupBase (see SrcTieImpl.lean) -/
+section base
+variable (G : LieModel α)
+theorem base_log (g : Vec α G.rep) : BaseSrc.log G g = G.log g := rfl
+theorem base_exp (a : Vec α G.dof) : BaseSrc.exp G a = G.exp a := rfl
+theorem base_rplus (g : Vec α G.rep) (a : Vec α G.dof) : BaseSrc.rplus G g a = G.rplus g a := rfl
+theorem base_irplus (g : Vec α G.rep) (a : Vec α G.dof) : BaseSrc.irplus G g a = G.rplus g a := rfl
+theorem base_rminus (g1 g2 : Vec α G.rep) : BaseSrc.rminus G g1 g2 = G.rminus g1 g2 := rfl
+end base
 
 end SrcTieImpl
